@@ -28,6 +28,9 @@ pub struct BConfig {
     /// executes right-nulled (shortened) reductions
     #[serde(default)]
     pub rn_table: bool,
+    /// `Settings::skip_ws(false)`: the generated lexer must not skip whitespace
+    #[serde(default)]
+    pub no_skip_ws: bool,
 }
 
 impl BConfig {
@@ -37,6 +40,9 @@ impl BConfig {
             s = s.parser_algo(ParserAlgo::GLR);
         } else if self.rn_table {
             s = s.table_type(rustemo_compiler::TableType::LALR_RN);
+        }
+        if self.no_skip_ws {
+            s = s.skip_ws(false);
         }
         s.builder_type(match self.builder {
             0 => BuilderType::Default,
